@@ -39,6 +39,26 @@ def custom_simplify_logic2(expr):
         return simplify_logic(expr)
 
 
+# Sections on more qubits than this are left untouched: their action cannot be checked
+MAX_CHECKED_SECTION_QUBITS = 12
+
+
+def _classical_action(gate_list, qubits):
+    """Return, for every basis state of `qubits`, the state a list of X / CX / CCX / MCX
+    gates maps it to"""
+    idx = {q: i for i, q in enumerate(sorted(qubits))}
+    table = []
+    for state in range(2 ** len(idx)):
+        bits = [(state >> i) & 1 for i in range(len(idx))]
+        for g, w, p in gate_list:
+            if g.is_nop() or g.name == "I":
+                continue
+            if all(bits[idx[c]] for c in w[:-1]):
+                bits[idx[w[-1]]] ^= 1
+        table.append(tuple(bits))
+    return table
+
+
 def circuit_boolean_optimizer(
     qc: QCircuit, compiler: SupportedCompiler = "internal", preserve=None
 ) -> QCircuit:
@@ -82,6 +102,16 @@ def circuit_boolean_optimizer(
         if (
             len(qc_sec.gates) > len(section.gates)
             or (qc_sec.used_qubits - section_qubits) != set()
+        ):
+            continue
+
+        # The expressions of a section are simultaneous assignments, while the compiler
+        # translates them one after the other (and only renames a qubit that is
+        # assigned another one): keep the new section only if it acts like the old one
+        if not preserve and (
+            len(section_qubits) > MAX_CHECKED_SECTION_QUBITS
+            or _classical_action(qc_sec.gates, section_qubits)
+            != _classical_action(section.gates, section_qubits)
         ):
             continue
 
